@@ -332,6 +332,10 @@ HIST = [
     {"nq": 3, "gates": [["h", [0]], ["cx", [0, 1]], ["ccx", [0, 1, 2]]], "names": [["b", 0], ["a", 1], ["c", 2]], "then_names": [["c", 0]], "then": [["x", [2]], ["cx", [2, 0]]]},
     {"nq": 4, "gates": [["cx", [0, 3]], ["ccx", [0, 1, 2]]], "names": [["a", 0], ["b", 1], ["c", 2], ["d", 3]], "then_names": [["d", 1]], "then": [["cx", [3, 1]], ["x", [3]]]},
     {"nq": 3, "gates": [["x", [1]], ["cx", [1, 2]]], "then_names": [["q2", 1]], "then": [["cx", [2, 1]], ["x", [2]]]},
+    # fine and non-dyadic phases (the ladders of an 8..10 qubit Fourier transform)
+    {"nq": 2, "gates": [["cp", [0, 1], 2 * math.pi / 2 ** 8], ["h", [0]], ["cp", [1, 0], 2 * math.pi / 2 ** 10]]},
+    {"nq": 3, "gates": [["cp", [0, 2], 0.024544], ["cx", [0, 1]], ["cp", [1, 2], 1.0], ["cp", [0, 1], math.pi / 3]]},
+    {"nq": 2, "gates": [["cp", [0, 1], math.pi / 128], ["cp", [0, 1], math.pi / 512], ["cp", [1, 0], 2.5]]},
     # circuits named like the mnemonics their bodies are written in
     {"nq": 2, "gates": [["x", [1]], ["cx", [0, 1]]], "cname": "cx"},
     {"nq": 2, "gates": [["h", [0]], ["cx", [0, 1]]], "cname": "cz"},
@@ -404,6 +408,16 @@ def judge(label, qc, fw, mode, st, solver, pre=None):
         return out + [("qubit-count", str(e))]
     except Exception as e:  # the exported object's own (lazy) code raised while being read
         return out + [("export-raises", "%s: %s" % (type(e).__name__, str(e)[:80]))]
+    if not fw.startswith("qasm"):
+        # the angle carried by each exported parameterised gate is the circuit's (QASM text is judged
+        # above, with its two-decimal format handled separately)
+        src_par = [p for g, w, p in qc.gates if p is not None and not g.is_nop()]
+        imp_par = [p for g, w, p in imp if p is not None]
+        if len(src_par) == len(imp_par) and src_par:
+            worst = max(abs(a - b) for a, b in zip(src_par, imp_par))
+            if worst > 1e-9:
+                out.append(("phase-wrong", "%s export carries angles %s for %s (off by up to %.2e)" % (fw, [round(x, 6) for x in imp_par][:4], [round(x, 6) for x in src_par][:4], worst)))
+                return out
     if any(i is None or i < 0 or i >= nq for g, w, p in imp for i in w):
         return out + [("qubit-range", "exported gates address qubits outside 0..%d" % (nq - 1))]
     xs = [z3.Bool("x%d" % i) for i in range(nq)]
